@@ -20,7 +20,20 @@ import (
 
 const c09Refill = time.Second
 
-var c09Steps = []time.Duration{400 * time.Millisecond, time.Second, 3100 * time.Millisecond}
+// clock steps of the history alphabet: the coarse set reaches idle periods of several refills,
+// the fine set paces arrivals at fractions of one refill period (0.3, 0.6, 0.9, 1.2 ...)
+var c09StepSets = map[string][]time.Duration{
+	"coarse": {400 * time.Millisecond, time.Second, 3100 * time.Millisecond},
+	"fine":   {300 * time.Millisecond, 600 * time.Millisecond, time.Second},
+}
+var c09Steps = c09StepSets["coarse"]
+
+func c09UseSteps(name string) {
+	if name == "" {
+		name = "coarse"
+	}
+	c09Steps = c09StepSets[name]
+}
 
 type c09Arr struct {
 	t  time.Duration
@@ -58,6 +71,7 @@ func c09Names(nc int, hist []int) []string {
 
 type c09Replay struct {
 	Max, Clients int
+	Steps        string
 	Events       []int
 	History      []string
 }
@@ -109,8 +123,9 @@ func c09Outcome(arr []c09Arr) string {
 	return b.String()
 }
 
-func c09Explore(r *vres.Report, max, nc, depth int) {
+func c09Explore(r *vres.Report, max, nc, depth int, steps string) {
 	start := time.Now()
+	c09UseSteps(steps)
 	nev := nc + len(c09Steps)
 	hist := make([]int, depth)
 	var leaves, evals int64
@@ -119,7 +134,7 @@ func c09Explore(r *vres.Report, max, nc, depth int) {
 	viol := func(key, what string, h []int) {
 		hh := append([]int(nil), h...)
 		r.Violate(key, what+fmt.Sprintf(" | history %v", c09Names(nc, hh)), len(hh), map[string]interface{}{
-			"engine": "H", "test": "TestVerifC09H", "scenario": "limiter-histories", "params": c09Replay{Max: max, Clients: nc, Events: hh, History: c09Names(nc, hh)}})
+			"engine": "H", "test": "TestVerifC09H", "scenario": "limiter-histories", "params": c09Replay{Max: max, Clients: nc, Steps: steps, Events: hh, History: c09Names(nc, hh)}})
 	}
 	var rec func(d int)
 	rec = func(d int) {
@@ -178,8 +193,8 @@ func c09Explore(r *vres.Report, max, nc, depth int) {
 	}
 	rec(0)
 	r.AddScenario(vres.Scenario{
-		Name: fmt.Sprintf("limiter-histories-max%d-clients%d", max, nc), Engine: "H", Executions: evals, States: leaves, Transitions: leaves * int64(depth),
-		Outcomes: outs.N(), Bound: fmt.Sprintf("all histories of length %d over {arrival of each of %d clients, +0.4s, +1s, +3.1s}, refill 1s (client symmetry reduced)", depth, nc),
+		Name: fmt.Sprintf("limiter-histories-max%d-clients%d-%s", max, nc, steps), Engine: "H", Executions: evals, States: leaves, Transitions: leaves * int64(depth),
+		Outcomes: outs.N(), Bound: fmt.Sprintf("all histories of length %d over {arrival of each of %d clients, clock steps %v}, refill 1s (client symmetry reduced)", depth, nc, c09Steps),
 		Exhaustive: true, Sample: map[string]interface{}{"history": c09Names(nc, hist), "max_tokens": max},
 		Extra: map[string]interface{}{"wall_s": time.Since(start).Seconds()},
 	})
@@ -198,6 +213,7 @@ func TestVerifC09H(t *testing.T) {
 			t.Fatal(err)
 		}
 		p := rp.Params
+		c09UseSteps(p.Steps)
 		per, v := c09Run(p.Max, p.Clients, p.Events)
 		fmt.Printf("REPLAY max_tokens=%d history=%v verdict=%s\n", p.Max, c09Names(p.Clients, p.Events), v.Kind)
 		for c := range per {
@@ -207,22 +223,26 @@ func TestVerifC09H(t *testing.T) {
 		}
 		return
 	}
-	type cfg struct{ max, nc, depth int }
+	type cfg struct {
+		max, nc, depth int
+		steps          string
+	}
 	var cfgs []cfg
 	if vres.Thorough() {
 		for m := 1; m <= 5; m++ {
-			cfgs = append(cfgs, cfg{m, 2, 10})
+			cfgs = append(cfgs, cfg{m, 2, 10, "coarse"})
 		}
-		cfgs = append(cfgs, cfg{1, 3, 9}, cfg{2, 3, 9}, cfg{2, 4, 8}, cfg{3, 1, 12})
+		cfgs = append(cfgs, cfg{1, 3, 9, "coarse"}, cfg{2, 3, 9, "coarse"}, cfg{2, 4, 8, "coarse"}, cfg{3, 1, 12, "coarse"},
+			cfg{1, 1, 12, "fine"}, cfg{2, 1, 12, "fine"}, cfg{3, 1, 12, "fine"}, cfg{1, 2, 9, "fine"}, cfg{2, 2, 9, "fine"})
 	} else {
 		for m := 1; m <= 4; m++ {
-			cfgs = append(cfgs, cfg{m, 2, 8})
+			cfgs = append(cfgs, cfg{m, 2, 8, "coarse"})
 		}
-		cfgs = append(cfgs, cfg{2, 3, 7}, cfg{3, 1, 10})
+		cfgs = append(cfgs, cfg{2, 3, 7, "coarse"}, cfg{3, 1, 10, "coarse"}, cfg{1, 1, 10, "fine"}, cfg{2, 1, 10, "fine"}, cfg{1, 2, 7, "fine"})
 	}
 	for i, c := range cfgs {
 		if vh.MyShard(i) {
-			c09Explore(r, c.max, c.nc, c.depth)
+			c09Explore(r, c.max, c.nc, c.depth, c.steps)
 		}
 	}
 }
